@@ -20,7 +20,10 @@ VERIF = os.path.dirname(os.path.dirname(os.path.dirname(os.path.abspath(__file__
 
 def props_for(patch):
     base = os.path.basename(patch)
-    m = re.match(r'(C\d\d)', base)
+    pf = patch[:-6] + '.props' if patch.endswith('.patch') else None
+    if pf and os.path.exists(pf):
+        return open(pf).read().strip().split(',')
+    m = re.search(r'(C\d\d)', base)
     if m:
         return [m.group(1)]
     meta = os.path.join(os.path.dirname(patch), 'meta.json')
